@@ -145,6 +145,9 @@ def check(ctx):
                f"a message split across two reads is lost or corrupted", key="carry_over")
 
     # ---- 2 completeness guard ------------------------------------------------------------------------------------
+    ctx.clause = "1b-framing"
+    from .c03 import framing_rules
+    framing_rules(ctx, repo, rule_prefix="R-CONSERVE/framing")
     ctx.clause = "2-completeness-guard"
     guards = []
     for fi in tr:
@@ -201,6 +204,30 @@ def check(ctx):
     ctx.clause = "3-buffer-conservation"
     n_sites = conservation(ctx, repo, funcs, {("TcpConnection", b) for b in BUFFERS})
     ctx.floor("receive_buffer_write_sites", n_sites, 4)
+
+    # every byte read from the socket reaches the shared stream in the same read() call: the hand-over from the private
+    # buffer may depend on nothing but that buffer being non-empty (no size threshold - the tail of a message can arrive in a
+    # segment of any length, and no further socket event will come for bytes that were held back)
+    from ..astutil import guards as _guards
+    n_tr = 0
+    for q, fi in funcs.items():
+        if fi.mod.name != "bromelia.transport" or fi.name != "read":
+            continue
+        g_ = _guards(fi.node)
+        for x in walk_no_nested(fi.node):
+            if isinstance(x, (ast.AugAssign, ast.Assign)) and ast.unparse(x.targets[0] if isinstance(x, ast.Assign) else x.target) == "self._recv_data_stream":
+                n_tr += 1
+                allowed = {("self._recv_buffer", True), ("len(self._recv_buffer) > 0", True), ("len(self._recv_buffer) >= 1", True),
+                           ("len(self._recv_buffer) == 0", False), ("self._recv_buffer == b''", False)}
+                conds = {(ast.unparse(t), v) for t, v in g_.get(id(x), [])}
+                extra = sorted(conds - allowed)
+                ctx.decide(not extra, "R-CONSERVE/hand-over-guard", fi.qual, fi.where(x),
+                           "received bytes are handed to the shared stream whenever there are any",
+                           f"read() hands the received bytes over only under {extra}: bytes that arrive while the condition is false stay in "
+                           f"the private buffer, and if they complete the last message no later socket event moves them - the message is "
+                           f"never delivered", key="handover_guard")
+    if n_tr == 0:
+        ctx.undecided("R-CONSERVE/hand-over-guard", "bromelia.transport.*.read", "bromelia/transport.py", "hand-over statement not found", key="handover")
 
     # ---- 4 lockset ------------------------------------------------------------------------------------------------------
     ctx.clause = "4-lock-consistency"
